@@ -238,10 +238,10 @@ Theorem expand_key_any_128 k : length k = 16%nat -> expand_key_any k = Some (exp
 Proof. intros H. rewrite expand_key_any_16, expand_nk4_expand_key by exact H. reflexivity. Qed.
 
 Theorem aes_encrypt_any_128 k b : length k = 16%nat -> aes_encrypt_any k b = Some (aes_encrypt k b).
-Proof. intros H. unfold aes_encrypt_any. rewrite expand_key_any_128 by exact H. reflexivity. Qed.
+Proof. intros H. unfold aes_encrypt_any, aes_encrypt. rewrite expand_key_any_128 by exact H. exact eq_refl. Qed.
 
 Theorem aes_decrypt_any_128 k b : length k = 16%nat -> aes_decrypt_any k b = Some (aes_decrypt k b).
-Proof. intros H. unfold aes_decrypt_any. rewrite expand_key_any_128 by exact H. reflexivity. Qed.
+Proof. intros H. unfold aes_decrypt_any, aes_decrypt. rewrite expand_key_any_128 by exact H. exact eq_refl. Qed.
 
 (* ---- the cipher and its inverse, every key size ---- *)
 Local Opaque aes_encrypt_rk aes_decrypt_rk expand_nk.
